@@ -1,5 +1,6 @@
 import SpoxModel.Lemmas.Emit
 import SpoxModel.Model.Conform
+import SpoxModel.Lemmas.Conform
 import SpoxModel.Generated.Conforms_v17
 import SpoxModel.Generated.Conforms_v18
 import SpoxModel.Generated.Conforms_v19
@@ -129,6 +130,51 @@ theorem entryOK_sound (e : Entry) (h : entryOK e = true) :
   simp only [entryOK, conformsTo, Bool.and_eq_true, beq_iff_eq, and_assoc] at h
   obtain ⟨h0, h1, h2, h3, _, _, h5, h6, h7, h8, _⟩ := h
   exact ⟨h0, h1, h2, h3, h5, h6, h7, h8⟩
+
+/-! ## conformance ⇒ emission (unbounded in the call) -/
+
+/-- **conforming_call.** For *any* constructor `c` and schema `s` with `conformsTo c s` (in
+    particular every pair of `table_conforms`), *any* assignment of arguments to the input
+    parameters and *any* subset of supplied attribute parameters (with any values), the node built
+    by the constructor call and emitted by `Node.to_onnx`
+    * carries the schema's operator name and domain and requires `(domain, since_version)`;
+    * has as inputs the schema's formal inputs in schema order, each bound to the argument of the
+      same name, trimmed as `emit_slots` describes with `min_input` of the schema;
+    * has as attributes, for each schema attribute in turn: the supplied value under the schema
+      name; else the schema default under the schema name if there is one; else nothing. -/
+theorem conforming_call (c : Ctor) (s : Schema) (h : conformsTo c s = true)
+    (args : String → Arg α) (outs : List (Arg α)) (supplied : String → Option Val) :
+    let n : NodeIn α Val :=
+      { opType := c.cls.opName, domain := c.cls.domain, version := c.cls.version,
+        mins := some (s.minInput, s.minOutput), inputs := callInputs c args, outputs := outs,
+        attrs := callAttrs c supplied }
+    (emitNode n).opType = s.name ∧ (emitNode n).domain = s.domain ∧
+    opsetReq n = (s.domain, s.since) ∧
+    (emitNode n).inputs = emitSlots s.minInput (s.inputs.map fun f => args f.1) ∧
+    (emitNode n).attrs =
+      (List.zipWith (expectedAttr supplied) s.attrs c.attrWires).filterMap id ∧
+    c.attrWires.length = s.attrs.length := by
+  simp only [conformsTo, Bool.and_eq_true, beq_iff_eq, and_assoc] at h
+  obtain ⟨h1, h2, h3, _, _, h5, _, h7, h8, _⟩ := h
+  have hin := callInputs_of_inputsOK c s.inputs h5 _ h7 args
+  have hat := callAttrs_of_attrsOK c.params supplied _ _ _ h8
+  refine ⟨h1, h2, ?_, ?_, ?_, attrsOK_length _ _ _ _ h8⟩
+  · simp [opsetReq, h2, h3]
+  · simp [emitNode, hin]
+  · simp only [emitNode, emitAttrs_eq_filterMap, callAttrs_eq, hat]
+
+/-- … in particular for every shipped operator/module pair of this run's tables. -/
+theorem shipped_call (e : Entry) (he : e ∈ allPairs)
+    (args : String → Arg α) (supplied : String → Option Val) :
+    emitSlots e.2.2.minInput (callInputs e.2.1 args) =
+      emitSlots e.2.2.minInput (e.2.2.inputs.map fun f => args f.1) ∧
+    emitAttrs (callAttrs e.2.1 supplied) =
+      (List.zipWith (expectedAttr supplied) e.2.2.attrs e.2.1.attrWires).filterMap id := by
+  have h := table_conforms e he
+  simp only [entryOK, Bool.and_eq_true] at h
+  have hc := conforming_call (α := α) e.2.1 e.2.2 h.2 args [] supplied
+  simp only [emitNode] at hc
+  exact ⟨hc.2.2.2.1, hc.2.2.2.2.1⟩
 
 open Generated.Conforms in
 /-- the deviating pairs conform in everything but their listed deviation -/
